@@ -83,6 +83,7 @@ type vfResp struct {
 	RawSetCk   []string
 	Panic      interface{}
 	PanicStack string
+	Aborted    bool // the handler aborted the connection (http.ErrAbortHandler): the client sees a broken response, not a complete one
 	UpHits     []*vfUpHit
 	IdpCalls   []*vfIdpCall
 	At         time.Duration
@@ -408,6 +409,9 @@ func (b *vfBrowser) Do(rep *vfReplica, r *vfReq) *vfResp {
 	// browser patience: a request that hangs is abandoned after 90 simulated seconds
 	ctx, cancel := context.WithTimeout(ctx, 90*time.Second)
 	defer cancel()
+	// handlers find the serving http.Server in the request context (httputil.ReverseProxy decides by it whether a broken
+	// body copy aborts the connection, which is what tells the client that the body is incomplete)
+	ctx = context.WithValue(ctx, http.ServerContextKey, vfFrontServer)
 	hr = hr.WithContext(ctx)
 	resp.HTTPReq = hr
 	w.mu.Lock()
@@ -433,6 +437,7 @@ func (b *vfBrowser) Do(rep *vfReplica, r *vfReq) *vfResp {
 					// recovers this sentinel silently; it is not a crash.
 					w.probe("handler:ErrAbortHandler")
 					rec.Code = 0
+					resp.Aborted = true
 					return
 				}
 				resp.Panic = p
@@ -535,6 +540,8 @@ func vfBodyHash(b []byte) string {
 
 // vfRecorder is httptest's recorder plus what a real connection does with informational responses: a 1xx status
 // (100 Continue, 103 Early Hints) is sent on its own and the final status follows; it never becomes the response's status.
+var vfFrontServer = &http.Server{}
+
 type vfRecorder struct {
 	*httptest.ResponseRecorder
 	Informational []int
